@@ -744,13 +744,9 @@ func readContractFile(path, pkgPath string) (*ContractFile, error) {
 			cur = nil
 		case "prop":
 			ps := strings.FieldsFunc(rest, func(r rune) bool { return r == ',' || r == ' ' })
-			if cur == nil && curLemma == nil {
-				curProps = ps
-			} else if cur != nil {
-				cur.Props = ps
-			} else {
-				curLemma.Props = ps
-			}
+			// always file-level: applies to the blocks that follow
+			curProps = ps
+			cur, curLemma = nil, nil
 		case "requires", "ensures", "panics_when":
 			c, err := parseClause(kw)
 			if err != nil {
